@@ -87,9 +87,9 @@ func newScopeRegistryWithShardCount(
 		sanitizedHistogramCardinalityName: root.sanitizer.Name(histogramCardinalityName),
 		sanitizedScopeCardinalityName:     root.sanitizer.Name(scopeCardinalityName),
 		cardinalityMetricsTags: map[string]string{
-			"version":  Version,
-			"host":     DefaultTagRedactValue,
-			"instance": DefaultTagRedactValue,
+			root.sanitizer.Key("version"):  root.sanitizer.Value(Version),
+			root.sanitizer.Key("host"):     root.sanitizer.Value(DefaultTagRedactValue),
+			root.sanitizer.Key("instance"): root.sanitizer.Value(DefaultTagRedactValue),
 		},
 	}
 
